@@ -234,3 +234,105 @@ def dep_closure_at(fnode, use, gm=None):
             for y in names_in(val):
                 work.append((y, dch))
     return out
+
+
+# ---------------------------------------------------------------------------
+# shared-state rules: memoising decorators and class-level mutable caches
+# ---------------------------------------------------------------------------
+CACHE_POSITIVE = '''
+import functools
+class H:
+    memo = {}
+    @functools.lru_cache(maxsize=8)
+    def load(self, path):
+        return path
+    def look(self, k):
+        self.memo[k] = 1
+'''
+
+
+def cache_sites(tree):
+    """[(kind, node, name)] : lru_cache/cache decorators; class-body dict/list/set attributes mutated by a method."""
+    out = []
+    for n in ast.walk(tree):
+        if isinstance(n, (ast.FunctionDef, ast.AsyncFunctionDef)):
+            for d in n.decorator_list:
+                t = ast.unparse(d)
+                if 'lru_cache' in t or t.endswith('.cache') or t == 'cache' or 'cached_property' in t or 'memoize' in t.lower():
+                    out.append(('decorator', n, n.name))
+        if isinstance(n, ast.ClassDef):
+            attrs = {}
+            for b in n.body:
+                if isinstance(b, ast.Assign) and len(b.targets) == 1 and isinstance(b.targets[0], ast.Name):
+                    v = b.value
+                    if isinstance(v, (ast.Dict, ast.List, ast.Set)) or (isinstance(v, ast.Call) and getattr(v.func, 'id', '') in
+                                                                          ('dict', 'list', 'set', 'OrderedDict', 'defaultdict', 'Counter')):
+                        attrs[b.targets[0].id] = b
+            for m in n.body:
+                if not isinstance(m, (ast.FunctionDef, ast.AsyncFunctionDef)):
+                    continue
+                for x in ast.walk(m):
+                    tgt = None
+                    if isinstance(x, ast.Assign):
+                        for t in x.targets:
+                            if isinstance(t, ast.Subscript) and isinstance(t.value, ast.Attribute) and t.value.attr in attrs:
+                                tgt = t.value.attr
+                    if isinstance(x, ast.Call) and isinstance(x.func, ast.Attribute) and x.func.attr in (
+                            'append', 'add', 'update', 'setdefault', 'extend', 'pop', 'clear', '__setitem__') and \
+                            isinstance(x.func.value, ast.Attribute) and x.func.value.attr in attrs:
+                        tgt = x.func.value.attr
+                    if tgt:
+                        out.append(('class-attribute', x, '%s.%s' % (n.name, tgt)))
+    return out
+
+
+def nocache_rule(run, rid, p, modules, text, allow=()):
+    run.rule(rid, text)
+    if len(cache_sites(ast.parse(CACHE_POSITIVE))) != 2:
+        raise AnalysisErrorCommon('cache rule no longer matches its embedded positive example')
+    n = 0
+    for mn in modules:
+        m = p.mod(mn)
+        n += 1
+        sites = [s for s in cache_sites(m.tree) if s[2] not in allow]
+        seen = set()
+        if not sites:
+            run.ob(rid, mn, True, '%s: no memoising decorator, no class-level container used as a cache' % mn, rel=m.rel, line=1, nontrivial=False)
+        for kind, node, name in sites:
+            if (kind, name) in seen:
+                continue
+            seen.add((kind, name))
+            run.ob(rid, '%s::%s:%s' % (mn, kind, name), False,
+                   '%s: %s %s keeps results across calls (not invalidated when the file / table / frame changes, and shared by every caller)'
+                   % (mn, 'memoising decorator on' if kind == 'decorator' else 'class-level container', name), rel=m.rel, line=node.lineno)
+    run.floor(rid, n, len(modules))
+
+
+class AnalysisErrorCommon(Exception):
+    pass
+
+
+def forward_rule(run, rid, p, pairs, text):
+    """Wrapper g calls sibling f with same-named keywords: every name both declare must be forwarded."""
+    run.rule(rid, text)
+    n = 0
+    for g, fname in pairs:
+        for c in p.own_nodes(g):
+            if not (isinstance(c, ast.Call) and isinstance(c.func, ast.Attribute) and c.func.attr == fname):
+                continue
+            ts, kind = p.resolve_call(g, c, g.cls.qn if g.cls else None)
+            if kind != 'resolved' or not ts:
+                continue
+            f = ts[0][0]
+            same = [k.arg for k in c.keywords if k.arg and isinstance(k.value, ast.Name) and k.value.id == k.arg]
+            if len(same) < 3:
+                continue
+            n += 1
+            passed = {k.arg for k in c.keywords if k.arg} | set(f.posparams[1:1 + len(c.args)])
+            both = (set(g.params) & set(f.params)) - {'self', 'msgs'}
+            miss = sorted(both - passed)
+            run.ob(rid, '%s::%s->%s' % (g.rel, g.short, f.name), not miss,
+                   '%s forwards %d same-named options to %s%s' % (g.short, len(same), f.name, '' if not miss else
+                                                                 '; it accepts %s too but does not pass %s on' % (miss, 'it' if len(miss) == 1 else 'them')),
+                   fn=g, node=c)
+    return n
